@@ -53,6 +53,8 @@ type Step struct {
 	V   int    `json:"v,omitempty"`
 	Bad string `json:"bad,omitempty"`
 	Via string `json:"via,omitempty"`
+	// NoSep: no virtual time passes after this step (bursts)
+	NoSep bool `json:"nosep,omitempty"`
 }
 
 type Script struct {
